@@ -39,6 +39,7 @@ fn main() {
                 "c14" | "c16" => props::tok::replay(job, &src, outdir),
                 "c02" | "c06" => props::rel::replay(job, &src, outdir),
                 "c09" => props::lat::replay(job, &src, outdir),
+                "c04" => props::sel::replay(&src, outdir),
                 _ => { eprintln!("unknown job {job}"); std::process::exit(2); }
             }
         }
@@ -54,6 +55,8 @@ fn main() {
                 "c15" => props::stream::job_c15(outdir, tier, seed),
                 "c02" => props::rel::job_c02(outdir, tier, seed),
                 "c06" => props::rel::job_c06(outdir, tier, seed),
+                "c04" => props::sel::job_c04(outdir, tier, seed),
+                "c05" => props::scope::job_c05(outdir, tier, seed),
                 "c09" => props::lat::job_c09(outdir, tier, seed),
                 "c14" => props::tok::job_c14(outdir, tier, seed),
                 "c16" => props::tok::job_c16(outdir, tier, seed),
